@@ -143,6 +143,11 @@ func harnessFn(name string) externalFn {
 				}
 			}
 			fr.i.pendingTimers = nil
+			for _, ch := range fr.i.pendingTickers {
+				if len(ch.buf) == 0 {
+					ch.buf = append(ch.buf, extTimeNow(fr, nil))
+				}
+			}
 			return nil
 		}
 	case "verifWaitGroupCount":
